@@ -40,13 +40,17 @@ fn any_perm() -> [usize; 4] {
 // O5.1 soundness of the sharp rectangle
 
 fn rect_soundness(max: i32, symbolic_order: bool) {
+    rect_soundness_opt(max, symbolic_order, true);
+}
+
+fn rect_soundness_opt(max: i32, symbolic_order: bool, dashed: bool) {
     // two horizontal and two vertical lines anywhere on the lattice
     let (y1, a1, b1) = (any_in(0, max), any_in(0, max), any_in(0, max));
     let (y2, a2, b2) = (any_in(0, max), any_in(0, max), any_in(0, max));
     let (x3, c3, d3) = (any_in(0, max), any_in(0, max), any_in(0, max));
     let (x4, c4, d4) = (any_in(0, max), any_in(0, max), any_in(0, max));
     kani::assume(a1 < b1 && a2 < b2 && c3 < d3 && c4 < d4);
-    let br = [kani::any::<bool>(), kani::any(), kani::any(), kani::any()];
+    let br = if dashed { [kani::any::<bool>(), kani::any(), kani::any(), kani::any()] } else { [false; 4] };
     // (horizontal?, row/col, from, to, dashed) of the four lines; the slice order is a
     // symbolic permutation of this DATA, and each Fragment is then built with a concrete
     // variant (a symbolic index into an array of Fragments would make the enum
@@ -77,7 +81,19 @@ fn rect_soundness(max: i32, symbolic_order: bool) {
     }
 }
 
-//@ harness: o5_1_rect_sound props=C05,C03 tier=quick obl=O5.1 timeout=2400 mem=28 flags=--no-memory-safety-checks,--no-assertion-reach-checks
+//@ harness: o5_1_rect_sound_small props=C05,C03 tier=quick obl=O5.1 timeout=800 mem=28 flags=--no-memory-safety-checks,--no-assertion-reach-checks
+//@ desc: any 2 horizontal + 2 vertical solid lattice lines (half-unit x, unit y, coordinates 0..4, positive length), slice order h,v,h,v: endorse_rect = Some(r) => the four lines are exactly the four sides of r (no ladder, no overhang, no T); bounded Vec; CBMC memory-safety instrumentation off (the property is functional)
+//@ encodes: endorse::endorse_rect, endorse::is_rect, endorse::parallel_aabb_group, Line::is_aabb_parallel, Line::is_touching_aabb_perpendicular, Rect::new
+#[kani::proof]
+#[kani::unwind(10)]
+#[kani::stub(std::vec::Vec::new, crate::kstub::vec_new_cap)]
+#[kani::stub(std::vec::Vec::push, crate::kstub::push_nogrow)]
+#[kani::stub(std::io::_print, crate::kstub::noop_print)]
+fn o5_1_rect_sound_small() {
+    rect_soundness_opt(4, false, false);
+}
+
+//@ harness: o5_1_rect_sound props=C05,C03 tier=thorough obl=O5.1 timeout=2400 mem=28 flags=--no-memory-safety-checks,--no-assertion-reach-checks
 //@ desc: any 2 horizontal + 2 vertical lattice lines (half-unit x, unit y, coordinates 0..6, positive length, symbolic dashedness), slice order h,v,h,v: endorse_rect = Some(r) => the four lines are exactly the four sides of r (no ladder, no overhang, no T), r dashed iff a side is; bounded Vec
 //@ encodes: endorse::endorse_rect, endorse::is_rect, endorse::parallel_aabb_group, Line::is_aabb_parallel, Line::is_touching_aabb_perpendicular, Rect::new
 #[kani::proof]
@@ -134,6 +150,10 @@ fn o5_1_rect_needs_2h2v() {
 // O5.2 completeness of the sharp rectangle
 
 fn rect_complete(max_w: i32, max_h: i32, max_x: i32, max_y: i32, all_orders: bool) {
+    rect_complete_opt(max_w, max_h, max_x, max_y, if all_orders { 24 } else { 6 });
+}
+
+fn rect_complete_opt(max_w: i32, max_h: i32, max_x: i32, max_y: i32, orders: usize) {
     // a box whose corner characters sit in cells (x0,y0) and (x0+w, y0+h):
     // its sides run between the cell centres m = (x+0.5, 2y+1)
     let w = any_in(1, max_w);
@@ -146,13 +166,13 @@ fn rect_complete(max_w: i32, max_h: i32, max_x: i32, max_y: i32, all_orders: boo
     let by = 2 * (y0 + h) + 1;
     let br = [kani::any::<bool>(), kani::any(), kani::any(), kani::any()];
     let data = [(true, ty, lx, rx, br[0]), (true, by, lx, rx, br[1]), (false, lx, ty, by, br[2]), (false, rx, ty, by, br[3])];
-    let p = if all_orders {
+    let p = if orders >= 24 {
         any_perm()
     } else {
-        // six representative slice orders (top,bottom,left,right = 0,1,2,3)
+        // representative slice orders (top,bottom,left,right = 0,1,2,3)
         let i: usize = kani::any();
-        kani::assume(i < 6);
-        [[0, 1, 2, 3], [0, 2, 1, 3], [2, 0, 3, 1], [3, 2, 1, 0], [1, 3, 0, 2], [2, 3, 0, 1]][i]
+        kani::assume(i < orders);
+        [[0, 2, 1, 3], [2, 0, 3, 1], [0, 1, 2, 3], [3, 2, 1, 0], [1, 3, 0, 2], [2, 3, 0, 1]][i]
     };
     // permute the DATA, build each Fragment with a concrete variant (see rect_soundness)
     let mk = |d: (bool, i32, i32, i32, bool)| -> Fragment {
@@ -168,14 +188,26 @@ fn rect_complete(max_w: i32, max_h: i32, max_x: i32, max_y: i32, all_orders: boo
         Some(r) => {
             assert!(r.start == hp(lx, ty) && r.end == hp(rx, by), "O5.2 the rect has the position and size of the drawn box");
             assert!(r.is_broken == (br[0] || br[1] || br[2] || br[3]), "O5.2 rect is dashed iff a side is dashed");
-            assert!(r.radius.is_none(), "O5.2 sharp corners give no radius");
+            assert!(r.radius.is_none() && !r.is_filled, "O5.2 sharp corners give no radius and no fill");
             assert!(r.width() == w as f32 && r.height() == 2.0 * h as f32, "O5.2 width/height are the box's");
         }
         None => assert!(false, "O5.2 the four sides of a closed box are endorsed as a rect, in any order"),
     }
 }
 
-//@ harness: o5_2_rect_complete props=C05,C03 tier=quick obl=O5.2 timeout=2400 mem=16
+//@ harness: o5_2_rect_complete_small props=C05,C03 tier=quick obl=O5.2 timeout=800 mem=28 flags=--no-memory-safety-checks,--no-assertion-reach-checks
+//@ desc: the 4 sides of every closed box with w in 1..4, h in 1..3 cells at origins <= (1,1), in 2 slice orders (top,left,bottom,right / left,top,right,bottom), any dashedness: endorse_rect returns exactly that rect, dashed iff a side is dashed, not filled, no radius; bounded Vec
+//@ encodes: endorse::endorse_rect, endorse::is_rect, endorse::parallel_aabb_group, Line::is_touching_aabb_perpendicular
+#[kani::proof]
+#[kani::unwind(10)]
+#[kani::stub(std::vec::Vec::new, crate::kstub::vec_new_cap)]
+#[kani::stub(std::vec::Vec::push, crate::kstub::push_nogrow)]
+#[kani::stub(std::io::_print, crate::kstub::noop_print)]
+fn o5_2_rect_complete_small() {
+    rect_complete_opt(4, 3, 1, 1, 2);
+}
+
+//@ harness: o5_2_rect_complete props=C05,C03 tier=thorough obl=O5.2 timeout=2400 mem=16
 //@ desc: the 4 sides of every closed box with w in 1..6, h in 1..4 cells at every origin <= (2,2) (position independence of the predicates involved is decided separately under C06), in 6 representative slice orders (all 24 in the thorough tier), any dashedness: endorse_rect returns exactly that rect
 //@ encodes: endorse::endorse_rect, endorse::is_rect, endorse::parallel_aabb_group, Line::is_touching_aabb_perpendicular
 #[kani::proof]
@@ -272,12 +304,12 @@ fn frags_arc(f: &Fragment) -> (Point, Point) {
 }
 
 fn rounded_complete(max_w: i32, max_h: i32, max_x: i32, max_y: i32, permute: bool) {
+    rounded_complete_at(any_in(2, max_w), any_in(2, max_h), any_in(0, max_x), any_in(0, max_y), max_w, max_h, permute);
+}
+
+fn rounded_complete_at(w: i32, h: i32, x0: i32, y0: i32, max_w: i32, max_h: i32, permute: bool) {
     // corner characters in cells (x0,y0) .. (x0+w, y0+h); sides run through the cell centres,
     // corner arcs have radius 0.5 as `. , ' \`` draw them between a horizontal and a vertical edge
-    let w = any_in(2, max_w);
-    let h = any_in(2, max_h);
-    let x0 = any_in(0, max_x);
-    let y0 = any_in(0, max_y);
     let l = 2 * x0 + 1; // half units
     let r = 2 * (x0 + w) + 1;
     let t = 2 * y0 + 1; // units
@@ -325,8 +357,8 @@ fn rounded_complete(max_w: i32, max_h: i32, max_x: i32, max_y: i32, permute: boo
     }
 }
 
-//@ harness: o5_3_rounded_complete props=C05 tier=quick obl=O5.3 timeout=2400 mem=20
-//@ desc: the 4 sides and 4 quarter arcs (radius 0.5) of every closed rounded box with w in 2..8, h in 2..4 cells at origins <= (1,1), sides in the order top,bottom,left,right and arcs in the order TL,TR,BL,BR, two slot layouts (lines first / interleaved with the arcs), any dashedness of the sides: endorse_rounded_rect returns exactly that rect with rx = 0.5 and endorse_rect returns None; powf stubbed by exact square; bounded Vec
+//@ harness: o5_3_rounded_complete props=C05 tier=thorough obl=O5.3 timeout=3400 mem=24
+//@ desc: the 4 sides and 4 quarter arcs (radius 0.5) of three representative closed rounded boxes - 2x2 cells at (0,0), 5x3 at (3,1), 12x6 at (40,20) - sides in the order top,bottom,left,right, arcs TL,TR,BL,BR, two slot layouts (lines first / interleaved), any dashedness of the sides: endorse_rounded_rect returns exactly that rect with rx = 0.5 and endorse_rect returns None (the size/offset-symbolic version did not finish in 40 min and is thorough-tier); powf stubbed by exact square; bounded Vec
 //@ encodes: endorse::endorse_rounded_rect, endorse::is_rounded_rect, endorse::right_angle_arcs, endorse::parallel_aabb_group, Arc::is_aabb_right_angle_arc, Rect::rounded_new
 #[kani::proof]
 #[kani::unwind(18)]
@@ -335,6 +367,25 @@ fn rounded_complete(max_w: i32, max_h: i32, max_x: i32, max_y: i32, permute: boo
 #[kani::stub(f32::powf, crate::kstub::powf_sq)]
 #[kani::stub(std::io::_print, crate::kstub::noop_print)]
 fn o5_3_rounded_complete() {
+    let which: u8 = kani::any();
+    kani::assume(which < 3);
+    match which {
+        0 => rounded_complete_at(2, 2, 0, 0, 2, 2, false),
+        1 => rounded_complete_at(5, 3, 3, 1, 5, 3, false),
+        _ => rounded_complete_at(12, 6, 40, 20, 12, 6, false),
+    }
+}
+
+//@ harness: o5_3_rounded_complete_sizes props=C05 tier=thorough obl=O5.3 timeout=3400 mem=24
+//@ desc: as o5_3_rounded_complete for every w in 2..8, h in 2..4 at origins <= (1,1) (symbolic)
+//@ encodes: endorse::endorse_rounded_rect, endorse::is_rounded_rect, endorse::right_angle_arcs, endorse::parallel_aabb_group
+#[kani::proof]
+#[kani::unwind(18)]
+#[kani::stub(std::vec::Vec::new, crate::kstub::vec_new_cap)]
+#[kani::stub(std::vec::Vec::push, crate::kstub::push_nogrow)]
+#[kani::stub(f32::powf, crate::kstub::powf_sq)]
+#[kani::stub(std::io::_print, crate::kstub::noop_print)]
+fn o5_3_rounded_complete_sizes() {
     rounded_complete(8, 4, 1, 1, false);
 }
 
